@@ -180,6 +180,10 @@ def gW3 : Graph := { nodes := [1, 5, 2, 3, 4, 0, 6],
                      adj := fun | 1 => [0] | 2 => [1] | 3 => [5, 2] | 4 => [3] | 5 => [6] | 6 => [0] | _ => [],
                      pl := fun | 6 => 5 | n => n, hid := fun | 6 => true | _ => false }
 
+-- the witness graphs are well-formed (every edge ends at a listed node)
+example : GWF gW2 := by unfold GWF; decide
+example : GWF gW3 := by unfold GWF; decide
+
 theorem gW3_wf : LabelsWF gW3 := by
   intro t h
   unfold gW3 at h ⊢
